@@ -129,6 +129,27 @@ func (e *encFunc) famOf(v ssa.Value) (*family, LF, bool) {
 	return nil, off, false
 }
 
+// altCond: the variant condition under which alternative a of a merged value is the one stored.
+func (c *Ctx) altCond(f *FA, x *bvCtx, a valAlt) string {
+	var parts []string
+	if base := c.variantCond(f, x, a.blk); base != "" {
+		parts = append(parts, strings.Split(base, " && ")...)
+	}
+	if a.to != nil {
+		if iff, ok := a.blk.Instrs[len(a.blk.Instrs)-1].(*ssa.If); ok && a.blk.Succs[0] != a.blk.Succs[1] {
+			if _, _, dec := c.condKnown(iff.Cond); !dec {
+				taken := a.blk.Succs[0] == a.to
+				if tok := moreLastToken(f.Fn, a.blk, iff, taken); tok != "" {
+					parts = append(parts, tok)
+				} else {
+					parts = append(parts, c.condText(f, x, iff.Cond, taken))
+				}
+			}
+		}
+	}
+	return cleanConds(parts)
+}
+
 // mergeByteRows joins single-octet stores that spell one big-endian integer octet by octet
 // (b[2] = byte(n >> 8); b[3] = byte(n)) into the row a PutUintN call would give.
 func mergeByteRows(rows []encRow) []encRow {
@@ -309,6 +330,13 @@ func (c *Ctx) encodeFamilies(fn *ssa.Function) *encFunc {
 				}
 				facts := f.FactsAt(b)
 				at := f.pin(off.add(f.LFOf(ia.Index), 1), facts)
+				// a merged value (if/else result, inlined helper result) is one conditional store per alternative
+				if alts := phiAlternatives(x.Val, b, 0); len(alts) > 1 {
+					for _, a := range alts {
+						fm.Rows = append(fm.Rows, encRow{Off: at, Octets: 1, Val: e.x.Eval(a.val), Cond: c.altCond(f, e.x, a), Ins: ins, Facts: facts})
+					}
+					continue
+				}
 				fm.Rows = append(fm.Rows, encRow{Off: at, Octets: 1, Val: e.x.Eval(x.Val), Cond: getCond(), Ins: ins, Facts: facts})
 			case *ssa.Call:
 				if cal := x.Call.StaticCallee(); cal != nil {
